@@ -319,7 +319,7 @@ int femmcli::LuaElectrostaticsCommands::luaAddBoundaryProperty(lua_State *L)
     if (n>5) m->BdryFormat=(int) lua_todouble(L,6);
 
     doc->lineproplist.push_back(std::move(m));
-    doc->updateLineMap();
+    doc->updateIndicesFromLabels();
     return 0;
 }
 
@@ -350,7 +350,7 @@ int femmcli::LuaElectrostaticsCommands::luaAddConductorProperty(lua_State *L)
     if(n>3) m->CircType = (int) lua_todouble(L,4);
 
     femmState->femmDocument()->circproplist.push_back(std::move(m));
-    femmState->femmDocument()->updateCircuitMap();
+    femmState->femmDocument()->updateIndicesFromLabels();
 
     return 0;
 }
@@ -388,7 +388,7 @@ int femmcli::LuaElectrostaticsCommands::luaAddMaterialProperty(lua_State *L)
     if(n>3) m->qv = lua_todouble(L,4);
 
     femmState->femmDocument()->blockproplist.push_back(std::move(m));
-    femmState->femmDocument()->updateBlockMap();
+    femmState->femmDocument()->updateIndicesFromLabels();
     return 0;
 }
 
@@ -421,7 +421,7 @@ int femmcli::LuaElectrostaticsCommands::luaAddPointProperty(lua_State *L)
     if (n>2) m->qp = lua_todouble(L,3);
 
     doc->nodeproplist.push_back(std::move(m));
-    doc->updateNodeMap();
+    doc->updateIndicesFromLabels();
     return 0;
 }
 
@@ -830,7 +830,7 @@ int femmcli::LuaElectrostaticsCommands::luaModifyBoundaryProperty(lua_State *L)
     {
     case 0:
         m->BdryName = lua_tostring(L,3);
-        doc->updateLineMap();
+        doc->updateIndicesFromLabels();
         break;
     case 1:
         m->V = lua_todouble(L,3);
@@ -901,6 +901,7 @@ int femmcli::LuaElectrostaticsCommands::luaModifyConductorProperty(lua_State *L)
         if (!lua_isnil(L,3))
             newName = lua_tostring(L,3);
         prop->CircName = newName;
+        doc->updateIndicesFromLabels();
         break;
     }
     case 1:
@@ -964,7 +965,7 @@ int femmcli::LuaElectrostaticsCommands::luaModifyMaterialProperty(lua_State *L)
     {
     case 0:
         m->BlockName = lua_tostring(L,3);
-        doc->updateBlockMap();
+        doc->updateIndicesFromLabels();
         break;
     case 1:
         m->ex = lua_todouble(L,3);
@@ -1023,6 +1024,7 @@ int femmcli::LuaElectrostaticsCommands::luaModifyPointProperty(lua_State *L)
     {
     case 0:
         p->PointName = lua_tostring(L,3);
+        doc->updateIndicesFromLabels();
         break;
     case 1:
         p->V = lua_todouble(L,3);
